@@ -31,7 +31,7 @@ CLAUSES = {
     "red360 x is the unique representative of x mod 360 in (-180, 180) (explicit integer Rround(x/360)); |E| <= 720 min structurally":
         "proved [spec of the reduction, used by the closed form: C14_eot_reduced, C14_eot_bound] - this is NOT the property's 25 / 17.5 min",
     "(m, s): m = trunc(E), s = (|E| mod 1)*60 in [0,60), |m| + s/60 = |E|": "proved [spec lemmas about the expressions in C14_eot_closed_form: C14_eot_seconds, C14_eot_recompose]",
-    "|E| <= 25 min (17.5 min in 1800-2200), daily change < 45 s": "unproved (searched): needs VSOP numerics; the sign of E is lost in (m, s) when |E| < 1 min: sign-aware reconstruction around the four zero crossings, most favourable sign elsewhere",
+    "|E| <= 25 min (17.5 min in 1800-2200), daily change < 45 s": "unproved (searched): needs VSOP numerics; the sign of E is lost in (m, s) when |E| < 1 min: the 45 s clause requires ONE consistent sign choice along the year (a candidate sign of a day must be within 45 s of a feasible candidate of the day before)",
     "get_equinox_solstice = the generated loop started at corr = 1.0, Epoch(jde0), jde0 = Meeus polynomial per season and year table (switch at 1000); loop: no fuel -> OutOfFuel, |corr| <= 2.5e-6 -> Epoch(epoch - corr), else one more round with corr = 58 sin(k*90 - lambda+)":
         "proved [ideal, pyrun per season x table: C14_season_structure] for int years -1000..3000, under CtorExact D (Epoch(float) exact on the instants visited; attained at dyadic JDEs in the binary64 instance: C14_callee_shapes)",
     "mean instants jde0 ordered, 88-95 d apart, same season 365.2-365.3 d apart, tables agree to 0.01 d at year 1000":
@@ -53,7 +53,14 @@ CLAUSES = {
         "unproved (searched); the 1 deg bound is refuted near the ends of 1900-2100: witness "
         "Epoch(2095,3,20).rise_set(Angle(-66.4), Angle(149.22583329129634), 2261.2834322062554) sunset 1.06 deg off "
         "(known finding, keys sunrise-altitude / sunset-altitude ONLY inside the envelope |year-2000| >= 75, |latitude| >= 40, deviation <= 1.3 deg; outside it the keys are *-gross and count as violations)",
-    "times_rise_transit_set: altitude at rise/set within 0.005 deg, meridian at transit (synthetic bodies and the library's own Sun around the March equinox)": "unproved (searched)",
+    "times_rise_transit_set: altitude at rise/set within 0.005 deg, meridian at transit (synthetic bodies and the library's own Sun around the March equinox)":
+        "unproved (searched). 'Grazing' = a culmination altitude within 0.75 deg of h0 on the body's true path over the three given days (2.7 % of events). "
+        "Outside it the literal 0.005 deg is missed by 0.005-0.025 deg for about 1 in 8000 events, all fast bodies (|declination rate| >= 0.97 deg/day): witness "
+        "times_rise_transit_set(Angle(157.4031645039181), Angle(-53.74224098992069), Angle(36.61480123169554), Angle(31.59378253441465), Angle(36.92815907036987), Angle(33.070618572165785), Angle(37.24151690904421), Angle(34.54745460991692), Angle(0.125), 69.2, Angle(177.38303401009554)) rising 0.0064 deg off "
+        "(keys trts-rising/setting-altitude-fast-body ONLY for a miss <= 0.03 deg with |declination rate| >= 0.95 deg/day; otherwise trts-rising/setting-altitude = violation)",
+    "rise_set returns instants for every latitude within +-66.5 deg (ValueError only where the Sun does not cross h0 that day)":
+        "unproved (searched). Refuted marginally: Epoch(2097,1,14).rise_set(Angle(-66.4), Angle(-102.88), 1684.4) raises ValueError although the library's own Sun passes h0 by 0.37 deg "
+        "(key riseset-refused-marginal-crossing ONLY when the Sun passes h0 by <= 0.5 deg at |latitude| >= 60; otherwise riseset-refused-inside-polar-circle = violation)",
 }
 
 
@@ -206,7 +213,9 @@ def seasons(cx, years):
                 cx.n += 1
                 try:
                     gap = inst(y + 1, k) - t[k]
-                except Exception:
+                except Exception as ex:      # y + 1 is inside -1000..3000: a raise is a finding
+                    cx.add("season-raises", "get_equinox_solstice(%d,%r) raises %r" % (y + 1, SEASONS[k], ex), [y + 1, SEASONS[k]],
+                           "print(Sun.get_equinox_solstice(%d, target=%r))" % (y + 1, SEASONS[k]))
                     continue
                 if k == 3:
                     g2 = inst(y + 1, 0) - t[3]
@@ -243,32 +252,51 @@ def eot_candidates(ms):
     return [a, -a]          # the sign is lost when -1 < E < 1
 
 
+def eot_chain(cx, js, mss, key, where=""):
+    """45 s/day clause with ONE consistent sign choice: the API loses the sign of E when the minutes field is 0; a day then has
+    the two candidates +|E| and -|E|.  A candidate of day i is feasible if some feasible candidate of day i-1 is less than 45 s
+    away; the clause fails at day i when no candidate of day i is feasible (then the chain restarts at day i)."""
+    feas = None
+    for i, ms in enumerate(mss):
+        if ms is None:
+            feas = None; continue
+        cand = eot_candidates(ms)
+        if feas is None:
+            feas = cand; continue
+        nxt = [x for x in cand if any(abs(x - z) * 60.0 < 45.0 for z in feas)]
+        if not nxt:
+            ch = min(abs(x - z) for x in cand for z in feas) * 60.0
+            cx.add(key, "equation_of_time changes by at least %.1f s from Epoch(%r) %r to Epoch(%r) %r%s for every sign choice consistent with the days before (< 45 s demanded)"
+                   % (ch, js[i - 1], mss[i - 1], js[i], ms, where), [js[i - 1], js[i]],
+                   "print(Sun.equation_of_time(Epoch(%r)), Sun.equation_of_time(Epoch(%r)))" % (js[i - 1], js[i]))
+            feas = cand
+        else:
+            feas = nxt
+
+
 def eot(cx, years):
     Sun, Epoch = cx.Sun, cx.Epoch
     for y in years:
         j0 = Epoch(y, 1, 1.0).jde()
         lim = 17.5 if 1800 <= y <= 2200 else 25.0
-        prev = None
+        js, mss = [], []
         for d in range(0, 367):
             cx.n += 1; cx.nontriv += 1
             j = j0 + d
             rp = "print(Sun.equation_of_time(Epoch(%r)))" % j
+            js.append(j)
             try:
                 ms = Sun.equation_of_time(Epoch(j))
             except Exception as ex:
-                cx.add("eot-raises", "equation_of_time(Epoch(%r)) raises %r" % (j, ex), [j], rp); prev = None; continue
+                cx.add("eot-raises", "equation_of_time(Epoch(%r)) raises %r" % (j, ex), [j], rp); mss.append(None); continue
+            mss.append(ms)
             m, s = ms
             if not (isinstance(m, int) and 0.0 <= s < 60.0):
                 cx.add("eot-encoding", "equation_of_time(Epoch(%r)) = %r: minutes not int or seconds outside [0,60)" % (j, ms), [j], rp)
             a = eot_abs(ms)
             if not a <= lim:
                 cx.add("eot-magnitude", "equation_of_time(Epoch(%r)) (year %d, day %d) = %r: |E| = %.3f min > %.1f" % (j, y, d, ms, a, lim), [j], rp)
-            if prev is not None:
-                ch = min(abs(x - z) for x in eot_candidates(ms) for z in eot_candidates(prev)) * 60.0
-                if not ch < 45.0:
-                    cx.add("eot-daily-change", "equation_of_time changes by %.1f s from Epoch(%r) %r to Epoch(%r) %r (< 45 s demanded)"
-                           % (ch, j - 1, prev, j, ms), [j - 1, j], "print(Sun.equation_of_time(Epoch(%r)), Sun.equation_of_time(Epoch(%r)))" % (j - 1, j))
-            prev = ms
+        eot_chain(cx, js, mss, "eot-daily-change")
 
 
 def rise_set(cx, rng, n):
@@ -289,12 +317,17 @@ def rise_set(cx, rng, n):
         try:
             rs, st = e.rise_set(Angle(lat), Angle(lon), h)
         except ValueError:
-            # no instants: acceptable only when the Sun does not clearly cross h0 that day (polar day/night at the circle)
+            # no instants: acceptable only when the Sun really does not cross h0 that local day (polar day/night at the circle)
+            # (independent check: the library's own Sun, every 10 minutes of the local day; no margin)
             noon = e.jde() + 0.5 - lon / 360.0
-            alts = [cx.sun_alt_ha(noon + q / 24.0, lat, lon)[0] for q in range(-12, 13)]
-            if max(alts) > h0 + 1.0 and min(alts) < h0 - 1.0:
-                cx.add("riseset-refused-inside-polar-circle", "%s raises ValueError although the Sun goes from %.2f to %.2f deg (h0 = %.3f)"
-                       % (call, min(alts), max(alts), h0), [y, mo, d, lat, lon, h], "print(%s)" % call)
+            alts = [cx.sun_alt_ha(noon + q / 144.0, lat, lon)[0] for q in range(-72, 73)]
+            if max(alts) > h0 and min(alts) < h0:
+                # narrow candidate known finding: the Sun passes h0 by at most 0.5 deg (start/end of midnight sun or polar night at
+                # that height) at |lat| >= 60; anything else is a violation
+                marg = min(max(alts) - h0, h0 - min(alts))
+                key = "riseset-refused-marginal-crossing" if (marg <= 0.5 and abs(lat) >= 60.0) else "riseset-refused-inside-polar-circle"
+                cx.add(key, "%s raises ValueError although the Sun goes from %.3f to %.3f deg (h0 = %.3f, passes it by %.3f deg)"
+                       % (call, min(alts), max(alts), h0, marg), [y, mo, d, lat, lon, h], "print(%s)" % call)
             continue
         except Exception as ex:
             cx.add("riseset-raises", "%s raises %r" % (call, ex), [y, mo, d, lat, lon, h], "print(%s)" % call); continue
@@ -334,6 +367,24 @@ def cosH0(h0, lat, dec):
             / (math.cos(math.radians(lat)) * math.cos(math.radians(dec))))
 
 
+def body_alt(p, m):
+    """altitude (deg) of the synthetic body at day fraction m, from its linear motion (plain spherical trigonometry)"""
+    nn = m + p["dt"] / 86400.0
+    ha = math.radians(p["th0"] + 360.985647 * m - p["lon"] - (p["a0"] + nn * p["dra"]))
+    d, f = math.radians(p["d0"] + nn * p["ddec"]), math.radians(p["lat"])
+    return math.degrees(math.asin(max(-1.0, min(1.0, math.sin(f) * math.sin(d) + math.cos(f) * math.cos(d) * math.cos(ha)))))
+
+
+def culmination_gap(p):
+    """smallest distance (deg) between h0 and a local extremum of the body's altitude over days -1 .. +2"""
+    hs = [body_alt(p, -1.0 + k / 480.0) for k in range(1441)]
+    gap = 99.0
+    for k in range(1, len(hs) - 1):
+        if (hs[k] - hs[k - 1]) * (hs[k + 1] - hs[k]) <= 0.0:
+            gap = min(gap, abs(hs[k] - p["h0"]))
+    return gap
+
+
 def general(cx, rng, n):
     Angle, C = cx.Angle, cx.C
     for i in range(n):
@@ -359,11 +410,9 @@ def general(cx, rng, n):
                 cx.add("trts-partial-none", "%s = %r" % (call, res), p, "print(%s)" % call)
             continue
         cx.nontriv += 1
-        # grazing: the path meets the altitude h0 at a shallow angle -- hour angle near 0/180 (|cos H0| > 0.96) or a diurnal
-        # altitude rate 360 cos(dec) cos(lat) sin(H0) below 60 deg/day (near the poles the declination motion dominates)
-        rate = min(360.0 * math.cos(math.radians(dd)) * math.cos(math.radians(p["lat"])) * math.sqrt(max(0.0, 1.0 - c * c))
-                   for dd, c in zip(decs, cs))
-        grazing = max(abs(c) for c in cs) > 0.96 or rate < 60.0
+        # grazing (geometric): on the body's true path over the three given days (-1 .. +2 d, sampled every 3 minutes) some
+        # upper or lower culmination altitude lies within 0.75 deg of h0 -- the body barely reaches h0, or stops/starts doing so
+        grazing = culmination_gap(p) < 0.75
         out = []
         for idx, hrs in enumerate(res):
             m = hrs / 24.0
@@ -379,8 +428,12 @@ def general(cx, rng, n):
                    p, "print(%s)" % call)
         if not grazing:
             for idx, nm in ((0, "rising"), (2, "setting")):
-                if not abs(out[idx][1] - p["h0"]) <= 0.005:
-                    cx.add("trts-%s-altitude" % nm, "%s: at the returned %s %.6f h the altitude is %.5f deg, h0 = %.4f (cos H0 = %.3f)"
+                dev = abs(out[idx][1] - p["h0"])
+                if not dev <= 0.005:
+                    # narrow candidate known finding: fast bodies (|declination rate| >= 0.95 deg/day) missing by at most 0.03 deg
+                    # (worst seen in 150000 bodies on the tree of 2026-10-02: 0.025 deg)
+                    fast = dev <= 0.03 and abs(p["ddec"]) >= 0.95
+                    cx.add("trts-%s-altitude%s" % (nm, "-fast-body" if fast else ""), "%s: at the returned %s %.6f h the altitude is %.5f deg, h0 = %.4f (cos H0 = %.3f)"
                            % (call, nm, res[idx], out[idx][1], p["h0"], cs[2]), p, "print(%s)" % call)
             if not (out[0][0] < 0.0 < out[2][0]):
                 cx.add("trts-rise-east-set-west", "%s: hour angles at rise/set are %.3f / %.3f deg" % (call, out[0][0], out[2][0]), p, "print(%s)" % call)
@@ -440,44 +493,21 @@ def sun_general(cx, rng, n):
 
 
 def eot_crossings(cx, years):
-    """day-to-day change across the four yearly zero crossings with a sign-aware reconstruction: the sign of the days with
-    |E| < 1 min (minutes field 0) is taken from the nearest days on either side whose minutes field is non-zero, switching at
-    the day of smallest |E| (that one day may take either sign)."""
+    """day-to-day change across the four yearly zero crossings (+-14 days), same one-consistent-sign-choice rule"""
     Sun, Epoch = cx.Sun, cx.Epoch
     for y in years:
         for (mo, d) in ((4, 15), (6, 13), (9, 1), (12, 25)):
             j0 = Epoch(y, mo, d).jde()
             js = [j0 + q for q in range(-14, 15)]
-            try:
-                ms = [Sun.equation_of_time(Epoch(j)) for j in js]
-            except Exception as ex:
-                cx.add("eot-raises", "equation_of_time near %d-%d-%d raises %r" % (y, mo, d, ex), [y, mo, d], "print(Sun.equation_of_time(Epoch(%r)))" % j0); continue
-            cx.n += len(js); cx.nontriv += len(js)
-            ab = [eot_abs(x) for x in ms]
-            first = next((i for i, x in enumerate(ms) if x[0] != 0), None)
-            last = next((i for i in range(len(ms) - 1, -1, -1) if ms[i][0] != 0), None)
-            if first is None or ms[first][0] * ms[last][0] > 0:
-                sgn = [1 if (first is None or ms[first][0] > 0) else -1] * len(ms)     # no crossing in the window
-                free = None
-            else:
-                zone = [i for i in range(len(ms)) if ms[i][0] == 0]
-                free = min(zone, key=lambda i: ab[i]) if zone else None
-                s1 = 1 if ms[first][0] > 0 else -1
-                sgn = []
-                for i in range(len(ms)):
-                    if ms[i][0] != 0: sgn.append(1 if ms[i][0] > 0 else -1)
-                    elif free is not None and i < free: sgn.append(s1)
-                    elif free is not None and i > free: sgn.append(-s1)
-                    else: sgn.append(0)
-            for i in range(1, len(ms)):
-                c1 = [sgn[i - 1] * ab[i - 1]] if sgn[i - 1] else [ab[i - 1], -ab[i - 1]]
-                c2 = [sgn[i] * ab[i]] if sgn[i] else [ab[i], -ab[i]]
-                ch = min(abs(a - b) for a in c1 for b in c2) * 60.0
-                if not ch < 45.0:
-                    cx.add("eot-daily-change-at-zero-crossing",
-                           "equation_of_time changes by %.1f s from Epoch(%r) %r to Epoch(%r) %r near the zero crossing of %d-%d-%d (< 45 s demanded)"
-                           % (ch, js[i - 1], ms[i - 1], js[i], ms[i], y, mo, d), [js[i - 1], js[i]],
-                           "print(Sun.equation_of_time(Epoch(%r)), Sun.equation_of_time(Epoch(%r)))" % (js[i - 1], js[i]))
+            mss = []
+            for j in js:
+                cx.n += 1; cx.nontriv += 1
+                try:
+                    mss.append(Sun.equation_of_time(Epoch(j)))
+                except Exception as ex:
+                    cx.add("eot-raises", "equation_of_time(Epoch(%r)) raises %r" % (j, ex), [j], "print(Sun.equation_of_time(Epoch(%r)))" % j)
+                    mss.append(None)
+            eot_chain(cx, js, mss, "eot-daily-change-at-zero-crossing", " near the zero crossing of %d-%d-%d" % (y, mo, d))
 
 
 def search(rng, tier, deep):
@@ -501,11 +531,11 @@ def search(rng, tier, deep):
     eot_crossings(cx, cyears)
     stats = {"evaluations": cx.n, "distinct_nontrivial": cx.nontriv,
              "rule": "seasons: %s years x 4 (longitude at the returned instant vs 90k within 1e-5 deg, order, 88-95 d, 365.2-365.3 d, ValueError outside); "
-                     "equation of time: every day of %d sample years -2000..4000 (|E| bound, daily change < 45 s with the most favourable sign when |E| < 1 min); "
+                     "equation of time: every day of %d sample years -2000..4000 (|E| bound, daily change < 45 s: one consistent sign choice along the year must work when |E| < 1 min hides the sign); "
                      "rise_set: %d random/boundary places and dates 1900-2100 (altitude from apparent_geocentric_position + apparent_sidereal_time + equatorial2horizontal); "
-                     "times_rise_transit_set: %d synthetic linearly moving bodies (<= 1.5 deg/day), grazing = |cos H0| > 0.96 or diurnal altitude rate < 60 deg/day somewhere in the three days; "
+                     "times_rise_transit_set: %d synthetic linearly moving bodies (<= 1.5 deg/day), grazing = a culmination altitude within 0.75 deg of h0 somewhere on the true path over the three given days (geometric); "
                      "times_rise_transit_set with the library's own Sun on 18-23 March (RA through 0h), 4 places incl. Boston 2024-03-20/21 and Munich 1987-03-21/22; "
-                     "equation of time +-14 days around its four zero crossings with sign-aware reconstruction"
+                     "equation of time +-14 days around its four zero crossings, same consistent-sign rule"
                      % ("ALL -1000..3000" if full else "%d sampled/boundary" % len(years), len(eyears), nrs, ntr),
              "samples": [{"input": [2000, "spring"], "checked": "apparent longitude at the returned JDE within 1e-5 deg of 0"}],
              "findings_by_key": cx.seen,
